@@ -72,13 +72,24 @@ class Variable(FortranObj):
         for child in self.children:
             child.update_fqsn(self.FQSN)
 
+    def closes_link_cycle(self, link_obj) -> bool:
+        """Check if linking to ``link_obj`` would make the chain of links cyclic,
+        e.g. ``p => p`` or ``a => b`` together with ``b => a``"""
+        chain = [self]
+        while link_obj is not None:
+            if any(link_obj is known for known in chain):
+                return True
+            chain.append(link_obj)
+            link_obj = getattr(link_obj, "link_obj", None)
+        return False
+
     def resolve_link(self, obj_tree):
         self.link_obj = None
         if self.link_name is None:
             return
         if self.parent is not None:
             link_obj = find_in_scope(self.parent, self.link_name, obj_tree)
-            if link_obj is not None:
+            if (link_obj is not None) and not self.closes_link_cycle(link_obj):
                 self.link_obj = link_obj
 
     def require_link(self):
